@@ -5,6 +5,7 @@
 # SPDX-License-Identifier: MIT
 """Functions related to version string manipulation."""
 
+import re
 import typing as typ
 import logging
 import datetime as dt
@@ -448,8 +449,12 @@ def _format_segment(seg: Segment, part_values: PartValues) -> FormatedSeg:
     result = result.replace(r"\[", r"[")
     result = result.replace(r"\]", r"]")
 
-    for part, part_value in used_parts:
-        result = result.replace(part, part_value)
+    if used_parts:
+        # NOTE: in a single pass, so that a substituted value together with
+        #   a literal is never taken for a part ("2020" + "W0W" has "0W" twice).
+        used_part_values = dict(used_parts)
+        used_parts_re    = "|".join(re.escape(part) for part, _ in used_parts)
+        result = re.sub(used_parts_re, lambda match: used_part_values[match.group(0)], result)
 
     # If a segment has no parts at all, it is a literal string
     # (typically a prefix or sufix) and should be output as is.
